@@ -62,6 +62,11 @@ def one_fault(case, k):
                                'TEMP_TABLE' not in after['schema'])
     if bool(changed) and set(changed) <= {'schema', 'rows'} and fault_after_all_applied:
         rep['only_new_tables'] = True
+    # F39 is about tables whose creation had COMPLETED (created_models sent) before a later step
+    # failed; a fault inside the model creation itself must leave nothing behind
+    rep['fault_inside_model_creation'] = sig_names.count('creating_models') > sig_names.count('created_models')
+    if rep['fault_inside_model_creation']:
+        rep['only_new_tables'] = False
     if r[0] == 'error' and changed:
         problems.append(('persisted', 'after the failed run these differ from before: %s' % changed))
     # retry without the fault
@@ -107,7 +112,7 @@ def run(ctx):
     sub_witness = None
     while done < ncases and tries < ncases * 6 and ctx.time_left() > 30:
         tries += 1
-        case = evocases.gen_upgrade(ctx.rng, new_model=ctx.rng.random() < 0.35)
+        case = evocases.gen_upgrade(ctx.rng, new_model=ctx.rng.choice([0, 0, 0, 1, 2]))
         if case is None:
             continue
         seed = ctx.seed * 1009 + tries
